@@ -1088,3 +1088,27 @@ def r10_sign_scrambles(rng, count):
             M = permute(rng, M)
         out.append(M)
     return out
+
+
+def tu_net_lines(rng, count, maxnodes=60):
+    """cases of the `tu_net` api: network matrices of random digraphs (up to maxnodes nodes, with loops and parallel arcs,
+    rows / columns in random order, random reversals) together with the digraph as witness; a quarter transposed-free
+    small ones, the rest large; random full parameter vectors without stop flags, the violator requested half the time"""
+    import vlib
+    out = []
+    for i in range(count):
+        nv = 2 + rng.below(8) if i % 4 == 0 else 8 + rng.below(maxnodes - 7)
+        ne = nv + rng.below(2 * nv)
+        M, w = graph_instance(rng, nv, ne, True)
+        if not M or not M[0]:
+            continue
+        c = rand_cfg(rng, stopflags=False, wantSub=rng.below(2))
+        if c[0] != 0 and len(M) * len(M[0]) > 64:
+            c[0] = 0                                   # the enumeration algorithms are exponential
+        out.append("%s %s %s" % (cfg_line(c), vlib.mat_line(M), w))
+    return out
+
+
+TU_NET_CODES = {1: "malformed record", 430: "CMRtuTest failed on a network matrix", 431: "verdict not written although no stop flag is set",
+                432: "a network matrix (certified by its digraph) is reported not totally unimodular",
+                433: "a violating submatrix is returned for a network matrix"}
